@@ -89,7 +89,11 @@ def _runner_main(jobs_path: str, out_path: str) -> None:
             if cfg['storage']:
                 st = labtech.storage.LocalStorage(sdir)
                 _verif.emit('setup_begin')
-                D.prepare_storage(cfg, st, job.get('shape_seed', 0))
+                setup_error = None
+                try:
+                    D.prepare_storage(cfg, st, job.get('shape_seed', 0))
+                except BaseException as ex:   # noqa  (reported below as the outcome of this job)
+                    setup_error = ex
                 _verif.emit('setup_end')
             built = D.Built(cfg, job.get('shape_seed', 0), beh={int(a): b for a, b in (job.get('beh') or {}).items()})
             req = built.requested()
@@ -107,6 +111,8 @@ def _runner_main(jobs_path: str, out_path: str) -> None:
                 os.environ['LV_GATE_TIMEOUT'] = str(job.get('gate_timeout', 90))
             _verif.emit('job_begin', job=job['id'], gate=str(gate), mark=U.PARENT_MARK)
             try:
+                if cfg['storage'] and setup_error is not None:
+                    raise setup_error
                 res = lab.run_tasks(req, bust_cache=cfg['bust'], disable_progress=not job.get('displays', False),
                                     disable_top=not job.get('displays', False))
                 outcome = {'kind': 'return', 'exc': '', 'cause': '', 'keys': [t.tid for t in res.keys()],
